@@ -220,6 +220,8 @@ pub struct Obs {
     pub refused_edge: bool,
     pub body_asked: bool,
     pub body_mode: Option<BodyMode>,
+    /// Flow<SendRequest>::headers_map() before the first write (C13 runs only)
+    pub accessor_headers: Option<Vec<(String, Vec<u8>)>>,
     pub calls: usize,
     /// sizes of the successful head writes, in order
     pub head_pieces: Vec<usize>,
@@ -326,6 +328,7 @@ struct Run<'a> {
     stop: bool,
     wake_pending: bool,
     spurious_left: u32,
+    repolled_after_head: bool,
     past_decision_polls: u32,
     ex: &'a Exchange<'a>,
     obs: Obs,
@@ -497,6 +500,14 @@ impl<'a> Run<'a> {
                 Step::Progress
             }
             FlowSt::SendRequest(mut f) => {
+                if self.ex.prop == "C13" && self.obs.accessor_headers.is_none() {
+                    // the request as its accessor shows it (once, before the first write)
+                    let m = lib("Flow<SendRequest>::headers_map", || f.headers_map());
+                    self.obs.accessor_headers = Some(match m {
+                        Ok(m) => m.iter().map(|(k, v)| (k.as_str().to_string(), v.as_bytes().to_vec())).collect(),
+                        Err(_) => Vec::new(),
+                    });
+                }
                 if lib("Flow<SendRequest>::can_proceed", || f.can_proceed()) {
                     self.obs.head_len = self.obs.c2s.len();
                     match lib("Flow<SendRequest>::proceed", || f.proceed()) {
@@ -735,6 +746,22 @@ impl<'a> Run<'a> {
                 if poll_on {
                     ctx.count("f:polled_past_interim_1xx");
                 }
+                if ready && !poll_on && self.spurious_left > 0 && !self.repolled_after_head && self.visible == self.consumed && !self.obs.responses.is_empty() {
+                    // a caller that polls once more although the head was delivered and nothing
+                    // new has arrived: it has nothing to offer but an empty window
+                    self.repolled_after_head = true;
+                    if ctx.chance(1, 2) {
+                        self.spurious_left -= 1;
+                        ctx.count("f:repoll_after_head_delivered");
+                        let r = lib("repeat_Flow<RecvResponse>::try_response", || f.try_response(&[]).map(|x| (x.0, x.1.is_some())));
+                        ctx.ev(|| format!("t={} RecvResponse.try_response(window=0) after the head was delivered -> {:?}", self.now, r.as_ref().map_err(err_name)));
+                        if let Ok((n, _)) = r {
+                            if n > 0 {
+                                self.bound(format!("try_response consumed {} bytes of an empty window", n));
+                            }
+                        }
+                    }
+                }
                 if ready && !poll_on {
                     match lib("Flow<RecvResponse>::proceed", || f.proceed()) {
                         Some(r) => {
@@ -904,6 +931,7 @@ impl<'a> Exchange<'a> {
             head_len: 0,
             responses: Vec::new(),
             skipped_100: 0,
+            accessor_headers: None,
             resp_body: Vec::new(),
             terminal: Terminal::Stuck("Prepare"),
             must_close: None,
@@ -946,6 +974,7 @@ impl<'a> Exchange<'a> {
             stop: false,
             wake_pending: false,
             spurious_left: if self.policy.spurious && !self.policy.canonical { 3 } else { 0 },
+            repolled_after_head: false,
             past_decision_polls: 0,
             ex: self,
             obs,
